@@ -161,6 +161,128 @@ pub fn b_int8_euclid1<S: Src>(s: &mut S) -> Result<(), String> {
 }
 harness!(c26_int8_euclid1, b_int8_euclid1, 3);
 
+// ---- temporal builtins (src/temporal_ops.rs): documented saturating arithmetic and interval predicates ----
+use inputlayer::temporal_ops::{
+    interval_contains, interval_duration, intervals_overlap, point_in_interval, time_add, time_after,
+    time_before, time_between, time_decay_linear, time_diff, time_sub, within_last,
+};
+
+fn sat(x: i128) -> i64 {
+    if x > i64::MAX as i128 {
+        i64::MAX
+    } else if x < i64::MIN as i128 {
+        i64::MIN
+    } else {
+        x as i64
+    }
+}
+
+/// time_diff / time_add / time_sub / interval_duration: equal to the exact (i128) result clamped to i64,
+/// for every pair of i64 — the documented "saturating arithmetic" contract; never panics.
+pub fn b_time_arith<S: Src>(s: &mut S) -> Result<(), String> {
+    let a = s.i64();
+    let b = s.i64();
+    cover!(a as i128 - b as i128 > i64::MAX as i128, "difference overflows upwards");
+    cover!((a as i128 + b as i128) < i64::MIN as i128, "sum overflows downwards");
+    check!(time_diff(a, b) == sat(a as i128 - b as i128), "time_diff = clamp(t1 - t2)");
+    check!(time_add(a, b) == sat(a as i128 + b as i128), "time_add = clamp(ts + d)");
+    check!(time_sub(a, b) == sat(a as i128 - b as i128), "time_sub = clamp(ts - d)");
+    check!(interval_duration(a, b) == sat(b as i128 - a as i128), "interval_duration = clamp(end - start)");
+    Ok(())
+}
+harness!(c26_time_arith, b_time_arith, 2);
+
+/// comparison predicates: trichotomy, duality, closed-interval membership
+pub fn b_time_cmp<S: Src>(s: &mut S) -> Result<(), String> {
+    let a = s.i64();
+    let b = s.i64();
+    let c = s.i64();
+    cover!(a == b, "equal timestamps");
+    check!(time_before(a, b) == time_after(b, a), "before/after dual");
+    let n = time_before(a, b) as u8 + time_after(a, b) as u8 + (a == b) as u8;
+    check!(n == 1, "exactly one of before / after / equal");
+    check!(time_between(a, b, c) == point_in_interval(a, b, c), "time_between = point_in_interval");
+    check!(time_between(a, b, c) == (!time_before(a, b) && !time_after(a, c)), "closed interval membership");
+    check!(time_between(a, a, a), "a point is inside its own degenerate interval");
+    Ok(())
+}
+harness!(c26_time_cmp, b_time_cmp, 2);
+
+/// within_last(ts, now, d): the age is the saturated now - ts; true iff 0 <= age <= d
+pub fn b_within_last<S: Src>(s: &mut S) -> Result<(), String> {
+    let ts = s.i64();
+    let now = s.i64();
+    let d = s.i64();
+    let age = sat(now as i128 - ts as i128);
+    cover!(now as i128 - ts as i128 > i64::MAX as i128, "age saturates");
+    cover!(within_last(ts, now, d) && d == 0, "zero window hit");
+    check!(within_last(ts, now, d) == (age >= 0 && age <= d), "within_last = 0 <= sat(now - ts) <= d");
+    if d < 0 {
+        check!(!within_last(ts, now, d), "negative window is empty");
+    }
+    if ts > now {
+        check!(!within_last(ts, now, d), "future timestamps are never within the last d");
+    }
+    if d < i64::MAX && (now as i128 - ts as i128) > d as i128 {
+        check!(!within_last(ts, now, d), "older than the window");
+    }
+    Ok(())
+}
+harness!(c26_within_last, b_within_last, 2);
+
+/// interval predicates against the point-set meaning of closed intervals, for every i64 endpoint
+pub fn b_intervals<S: Src>(s: &mut S) -> Result<(), String> {
+    let (s1, e1, s2, e2, p) = (s.i64(), s.i64(), s.i64(), s.i64(), s.i64());
+    let ov = intervals_overlap(s1, e1, s2, e2);
+    cover!(ov && e1 == s2, "touching intervals");
+    cover!(!ov, "disjoint");
+    check!(ov == intervals_overlap(s2, e2, s1, e1), "overlap symmetric");
+    if point_in_interval(p, s1, e1) && point_in_interval(p, s2, e2) {
+        check!(ov, "a common point implies overlap");
+    }
+    if s1 <= e1 && s2 <= e2 {
+        let lo = if s1 > s2 { s1 } else { s2 };
+        let hi = if e1 < e2 { e1 } else { e2 };
+        check!(ov == (lo <= hi), "overlap iff max(start) <= min(end)");
+        if ov {
+            check!(point_in_interval(lo, s1, e1) && point_in_interval(lo, s2, e2), "overlap has a witness point");
+        }
+        check!(interval_contains(s1, e1, s1, e1), "contains reflexive");
+        if interval_contains(s1, e1, s2, e2) {
+            check!(ov, "containment implies overlap");
+        }
+    }
+    if interval_contains(s1, e1, s2, e2) && point_in_interval(p, s2, e2) {
+        check!(point_in_interval(p, s1, e1), "points of the inner interval lie in the outer");
+    }
+    if s2 <= e2 && point_in_interval(s2, s1, e1) && point_in_interval(e2, s1, e1) {
+        check!(interval_contains(s1, e1, s2, e2), "both endpoints inside implies containment");
+    }
+    Ok(())
+}
+harness!(c26_intervals, b_intervals, 2);
+
+/// time_decay_linear: result in [0,1], 1.0 for current/future timestamps, 0/1 step for non-positive max age
+pub fn b_decay_linear<S: Src>(s: &mut S) -> Result<(), String> {
+    let ts = s.i64();
+    let now = s.i64();
+    let m = s.i64();
+    let r = time_decay_linear(ts, now, m);
+    cover!(r > 0.0 && r < 1.0, "strictly between");
+    check!(r >= 0.0 && r <= 1.0, "linear decay in [0,1]");
+    if ts >= now {
+        check!(r == 1.0, "current or future timestamp has weight 1");
+    }
+    if m <= 0 && ts < now {
+        check!(r == 0.0, "non-positive max age: past timestamps have weight 0");
+    }
+    if m > 0 && (now as i128 - ts as i128) >= 2 * (m as i128) {
+        check!(r == 0.0, "far beyond max age: weight 0");
+    }
+    Ok(())
+}
+harness!(c26_decay_linear, b_decay_linear, 2);
+
 pub fn register(v: &mut Vec<(&'static str, NativeBody)>) {
     v.push(("c26_hamming", b_hamming::<NativeSrc>));
     v.push(("c26_probes_h0_p3", b_probes_h0_p3::<NativeSrc>));
@@ -177,4 +299,9 @@ pub fn register(v: &mut Vec<(&'static str, NativeBody)>) {
     v.push(("c26_float_mismatch", b_float_mismatch::<NativeSrc>));
     v.push(("c26_int8_dist3", b_int8_dist3::<NativeSrc>));
     v.push(("c26_int8_euclid1", b_int8_euclid1::<NativeSrc>));
+    v.push(("c26_time_arith", b_time_arith::<NativeSrc>));
+    v.push(("c26_time_cmp", b_time_cmp::<NativeSrc>));
+    v.push(("c26_within_last", b_within_last::<NativeSrc>));
+    v.push(("c26_intervals", b_intervals::<NativeSrc>));
+    v.push(("c26_decay_linear", b_decay_linear::<NativeSrc>));
 }
